@@ -61,8 +61,9 @@ def abi_item_of(t: dict, name: str) -> dict:
     return {"name": name, "type": elem_type_str(base) + suffix, "internalType": elem_type_str(base) + suffix}
 
 
-def function_item(root: dict, fname: str = "f") -> dict:
-    inputs = [abi_item_of(c, f"p{i}") for i, c in enumerate(root["c"])]
+def function_item(root: dict, fname: str = "f", unnamed: bool = False) -> dict:
+    # (Solidity allows unnamed parameters: the ABI item then has "name": "")
+    inputs = [abi_item_of(c, "" if unnamed else f"p{i}") for i, c in enumerate(root["c"])]
     return {"type": "function", "name": fname, "inputs": inputs, "outputs": [], "stateMutability": "nonpayable"}
 
 
@@ -85,7 +86,7 @@ class LeafInst:
     kind: str
 
 
-def allocate(root: dict, dal: list[int], dbl: list[int], ov: list[list[int]]):
+def allocate(root: dict, dal: list[int], dbl: list[int], ov: list[list[int]], unnamed: bool = False):
     """Allocation tree (maximal candidate of every dynamic node), the dynamic instances and the leaves,
     all in pre-order.  The j-th dynamic instance takes ov[j] when that list exists and is non-empty
     (given to halmos through --array-lengths <name>=...), the default list of its kind otherwise."""
@@ -120,7 +121,7 @@ def allocate(root: dict, dal: list[int], dbl: list[int], ov: list[list[int]]):
             prefix = f"{name}." if name else ""
             kids = []
             for i, c in enumerate(t["c"]):
-                nm = f"p{i}" if not path and not name else f"c{i}"
+                nm = ("" if unnamed else f"p{i}") if not path and not name else f"c{i}"
                 kids.append(go(c, f"{prefix}{nm}", path + (i + 1,)))
             return {"m": len(kids), "n": len(kids), "c": kids}
         raise MachineryError(f"unknown type kind {k}")
@@ -286,13 +287,13 @@ def build_case(cid: int, gen: dict, *, cap: int, rnd: random.Random, all_values:
                mutate=None) -> Case:
     root = gen["t"]
     c = Case(id=cid, gen=gen, root=root, sig=gen["sig"])
-    item = function_item(root)
+    item = function_item(root, unnamed=bool(gen.get("unnamed")))
     c.fsig = "f" + gen["sig"]
     got = str_abi(item)
     if got != c.fsig:
         c.problems.append(("str_abi", f"str_abi gives {got!r}, the specification's signature string is {c.fsig!r}"))
     c.selector = keccak(c.fsig.encode())[:4]
-    c.amax, c.dyn, c.leaves = allocate(root, gen["dal"], gen["dbl"], gen["ov"])
+    c.amax, c.dyn, c.leaves = allocate(root, gen["dal"], gen["dbl"], gen["ov"], unnamed=bool(gen.get("unnamed")))
     # "noflags": the candidate lists of the record are halmos' documented defaults, no flag is passed
     c.flags = [] if gen.get("noflags") else config_flags(gen["dal"], gen["dbl"], c.dyn)
     args = hrun.mk_args(*c.flags)
